@@ -469,13 +469,18 @@ def loop_conditions(ctx, cfg, fs, rule='K5.loops'):
     about further occurrences)."""
     OKCALL = [r'^structs::parse_option$', r'State::len$', r'Try>::branch$', r'Option::<.*>::is_(some|none)$', r'Result::<.*>::is_(ok|err)$', r'Vec::<.*>::(len|is_empty)$']
     for b in sorted(fs.bodies.values(), key=lambda x: x.path):
-        if b.kind == 'closure':
-            continue
         for c in b.calls():
-            if not c.is_(r'^structs::parse_option$') or c.target is None or c.bb not in reachable_edges(b, c.target):
+            if not c.is_(r'^structs::parse_option$') or c.target is None:
+                continue
+            if b.kind == 'closure':
+                # the body of `from_fn(|| parse_option(..).transpose())`: the collecting iterator is the loop, every test in the
+                # closure decides whether the repetition goes on
+                cyc = set(b.reachable(0))
+            elif c.bb in reachable_edges(b, c.target):
+                cyc = {x for x in reachable_edges(b, c.target) if b.reaches(x, [c.bb])} | {c.bb}
+            else:
                 continue
             ctx.look(b)
-            cyc = {x for x in reachable_edges(b, c.target) if b.reaches(x, [c.bb])} | {c.bb}
             bad = []
             def judge(roots, depth=0):
                 for r in roots:
